@@ -153,7 +153,7 @@ fn agg_layer(ctx: &Ctx, col: &Collector, tables: &Tables) {
     ];
     let items = ["COUNT(*)", "COUNT(i)", "COUNT(DISTINCT r)", "SUM(i)", "SUM(r)", "SUM(iv)", "AVG(i)", "AVG(r)", "AVG(iv)", "MIN(i)", "MAX(r)", "MIN(iv)", "MAX(t)", "STDDEV(i)", "VARIANCE(r)", "STDDEV(iv)", "PERCENTILE(r, 0.5)", "PERCENTILE(i, 1.0)", "BOOL_AND(b)", "BOOL_OR(i)", "STRING_AGG(t, ',')", "STRING_AGG(i, ',')", "ARRAY_AGG(r)", "ARRAY_AGG(a)", "SUM(i) * 2", "SUM(i) + 1", "MAX(i) + 1", "MIN(i) - 1", "SUM(t)", "AVG(b)", "MIN(a)", "SUM(i) / 0", "COUNT(*) / 0"];
     let clauses = ["", "GROUP BY t", "GROUP BY t HAVING SUM(i) > 0", "GROUP BY r", "GROUP BY t HAVING MAX(r) > 1.0 AND COUNT(u) = 0", "HAVING COUNT(*) > 100", "GROUP BY a", "GROUP BY i + 1", "GROUP BY t HAVING SUM(i) / 0 > 1"];
-    let maxlen = ctx.tier.pick(3, 4) as u32;
+    let maxlen = ctx.tier.pick(3, 5) as u32;
     let k = lines.len() as u64;
     let nseq = seq_count(k, maxlen);
     let mut stmts: Vec<String> = Vec::new();
@@ -216,7 +216,7 @@ fn bytes_layer(ctx: &Ctx, col: &Collector) {
     let units: [&[u8]; 9] = [&[0x00], b"a", b"\n", b"\r", &[0xFF], &[0xC3], &[0xA9], b"{", b"\""];
     let rt = sut::make_tables("CREATE TABLE t(line = '(.)(.)?', line[1] => x TEXT, line[2] => y TEXT);").unwrap();
     let jt = sut::make_tables("CREATE TABLE t({ .a } => a TEXT, '(.)' => x TEXT);").unwrap();
-    let maxlen = ctx.tier.pick(3, 4) as u32;
+    let maxlen = ctx.tier.pick(3, 6) as u32;
     let k = units.len() as u64;
     let total = seq_count(k, maxlen);
     let (done, complete) = par_for_budget(ctx, total, 16, |idx| {
